@@ -30,7 +30,7 @@ func init() {
 		FaultKinds: []string{"split-inside-number", "split-inside-string", "split-inside-escape", "split-inside-rune", "split-inside-literal",
 			"split-in-whitespace", "split-at-structural", "zero-read", "data+eof", "data+err", "eof-inside-value", "eof-clean-early", "err-inside-value", "err-at-boundary",
 			"err-kind-unexpected-eof", "err-kind-custom", "err-kind-wrapped", "err-kind-wraps-eof", "long-run-of-zero-length-reads", "second-decoder-used-in-turns", "option-set-in-the-middle-of-a-stream", "cut-right-after-number"},
-		ProbeNames: []string{"refills>1", "value-longer-than-first-read-batch", "whitespace-run>64KiB", "values-decoded", "stream>32KiB", "stream>64KiB", "number-ends-at-read-boundary", "batch-boundary-inside-number", "batch-boundary-inside-token", "batch-boundary-inside-whitespace", "terminal-rechecked", "buffered-after-terminal-checked", "parse-remainder-checked", "buffered-checked", "values-rechecked-after-buffer-refills"},
+		ProbeNames: []string{"refills>1", "value-longer-than-first-read-batch", "whitespace-run>64KiB", "values-decoded", "stream>32KiB", "stream>64KiB", "number-ends-at-read-boundary", "batch-boundary-inside-number", "batch-boundary-inside-token", "batch-boundary-inside-whitespace", "terminal-rechecked", "buffered-after-terminal-checked", "parse-remainder-checked", "buffered-checked", "values-rechecked-after-buffer-refills", "last-value-ends-at-a-fill-boundary"},
 		Real:       []string{"json.Decoder (readValue, Buffered, InputOffset), json.Parse, the whole json decode path, compiled from /repo's working tree"},
 		Model:      []string{"io.Reader (simio.Reader: scripted chunking, zero reads, data+err, terminal errors)", "reference: encoding/json.Decoder of the toolchain, fed the delivered bytes in a single read"},
 		Assumptions: []string{
@@ -230,6 +230,27 @@ func c11GenStream(r *core.Run, mode int, maxLen int) []byte {
 		}
 		if len(b) >= maxLen+80000 {
 			break
+		}
+	}
+	// sometimes the last value ends exactly where a buffer fill ends (32768 or
+	// 65536), with whitespace only behind it
+	if t.Chance(1, 12) {
+		end := len(b)
+		for end > 0 && isWS(b[end-1]) {
+			end--
+		}
+		// start of the last value: after the last whitespace in front of it at depth 0
+		if spans, _ := c11RefFrames(b[:end]); len(spans) > 0 {
+			last := spans[len(spans)-1]
+			for _, target := range []int{32768, 65536} {
+				if last.end <= target && last.start > 0 {
+					pad := bytes.Repeat([]byte{' '}, target-last.end)
+					nb := append(append(append([]byte(nil), b[:last.start]...), pad...), b[last.start:last.end]...)
+					tail := [][]byte{{'\n'}, {' ', '\n'}, bytes.Repeat([]byte{' '}, 5000), bytes.Repeat([]byte{'\n'}, 40000), nil}[t.Intn(5)]
+					r.Probe("last-value-ends-at-a-fill-boundary")
+					return append(nb, tail...)
+				}
+			}
 		}
 	}
 	// trailing whitespace: none / some
